@@ -233,6 +233,13 @@ class MemoryWorkflowStore(AbstractWorkflowStore):
         while True:
             async with condition:
                 all_events = self.events.get(run_id, [])
+                # A cursor ahead of the log: events appended later that are
+                # still at or below after_sequence are not part of the stream.
+                while (
+                    cursor < len(all_events)
+                    and all_events[cursor].sequence <= after_sequence
+                ):
+                    cursor += 1
                 batch = all_events[cursor:]
                 if not batch:
                     await condition.wait()
